@@ -40,8 +40,9 @@ var censusDirs = []string{"protocol", "blockchain/types", "blockchain/validation
 	"blockchain", "pengings", "consensus", "core/mempool", "core/flip", "core/upgrade"}
 
 type censusRow struct {
-	Fn, Field string
-	Count     int
+	Fn, Field, Root string // Root: the variable the selection starts from (e.g. prevBlock in prevBlock.ProposedHeader.Upgrade)
+	Count           int    // dereference sites
+	Guards          int    // comparisons of Root…Field with nil in the same function (==, !=)
 }
 
 type census struct {
@@ -107,7 +108,8 @@ func runCensus(repo string) (*census, error) {
 	if len(cs.Fields) == 0 {
 		return nil, fmt.Errorf("census: no optional fields found under %s", repo)
 	}
-	pairs := map[[2]string]int{}
+	pairs := map[[3]string]int{}
+	guards := map[[3]string]int{}
 	for _, d := range censusDirs {
 		ents, err := os.ReadDir(filepath.Join(repo, d))
 		if err != nil {
@@ -150,7 +152,7 @@ func runCensus(repo string) (*census, error) {
 						case *ast.SelectorExpr:
 							if in, ok := y.X.(*ast.SelectorExpr); ok {
 								if _, isOpt := cs.Fields[in.Sel.Name]; isOpt {
-									pairs[[2]string{fn, in.Sel.Name}]++
+									pairs[[3]string{fn, in.Sel.Name, rootIdent(in.X)}]++
 								}
 							}
 							// Decode's use of the cap and DecodedLen (the allocation gate)
@@ -162,7 +164,19 @@ func runCensus(repo string) (*census, error) {
 						case *ast.StarExpr:
 							if in, ok := y.X.(*ast.SelectorExpr); ok {
 								if _, isOpt := cs.Fields[in.Sel.Name]; isOpt {
-									pairs[[2]string{fn, "*" + in.Sel.Name}]++
+									pairs[[3]string{fn, "*" + in.Sel.Name, rootIdent(in.X)}]++
+								}
+							}
+						case *ast.BinaryExpr:
+							if y.Op == token.EQL || y.Op == token.NEQ {
+								for _, pr := range [][2]ast.Expr{{y.X, y.Y}, {y.Y, y.X}} {
+									if id, ok := pr[1].(*ast.Ident); ok && id.Name == "nil" {
+										if se, ok := pr[0].(*ast.SelectorExpr); ok {
+											if _, isOpt := cs.Fields[se.Sel.Name]; isOpt {
+												guards[[3]string{fn, se.Sel.Name, rootIdent(se.X)}]++
+											}
+										}
+									}
 								}
 							}
 						case *ast.Ident:
@@ -177,15 +191,44 @@ func runCensus(repo string) (*census, error) {
 		}
 	}
 	for k, v := range pairs {
-		cs.Rows = append(cs.Rows, censusRow{k[0], k[1], v})
+		g := guards[[3]string{k[0], strings.TrimPrefix(k[1], "*"), k[2]}]
+		cs.Rows = append(cs.Rows, censusRow{k[0], k[1], k[2], v, g})
 	}
 	sort.Slice(cs.Rows, func(i, j int) bool {
-		if cs.Rows[i].Fn != cs.Rows[j].Fn {
-			return cs.Rows[i].Fn < cs.Rows[j].Fn
+		a, b := cs.Rows[i], cs.Rows[j]
+		if a.Fn != b.Fn {
+			return a.Fn < b.Fn
 		}
-		return cs.Rows[i].Field < cs.Rows[j].Field
+		if a.Field != b.Field {
+			return a.Field < b.Field
+		}
+		return a.Root < b.Root
 	})
 	return cs, nil
+}
+
+// rootIdent: the identifier an access path starts from (x in x.a.b, x.f().c, x[i].d); "_" if there is none
+func rootIdent(e ast.Expr) string {
+	for {
+		switch x := e.(type) {
+		case *ast.Ident:
+			return x.Name
+		case *ast.SelectorExpr:
+			e = x.X
+		case *ast.CallExpr:
+			e = x.Fun
+		case *ast.IndexExpr:
+			e = x.X
+		case *ast.ParenExpr:
+			e = x.X
+		case *ast.StarExpr:
+			e = x.X
+		case *ast.TypeAssertExpr:
+			e = x.X
+		default:
+			return "_"
+		}
+	}
 }
 
 func exprString(e ast.Expr) string {
@@ -203,22 +246,24 @@ func exprString(e ast.Expr) string {
 type expectation struct {
 	Class  string
 	Count  int
+	Guards int
 	Reason string
 }
 
-func loadExpectations() map[[2]string]expectation {
-	m := map[[2]string]expectation{}
+func loadExpectations() map[[3]string]expectation {
+	m := map[[3]string]expectation{}
 	for _, l := range strings.Split(derefsExpected, "\n") {
 		if l == "" || strings.HasPrefix(l, "#") {
 			continue
 		}
-		p := strings.SplitN(l, "\t", 5)
-		if len(p) < 5 {
+		p := strings.SplitN(l, "\t", 7)
+		if len(p) < 7 {
 			continue
 		}
-		var n int
-		fmt.Sscan(p[2], &n)
-		m[[2]string{p[0], p[1]}] = expectation{Class: p[3], Count: n, Reason: p[4]}
+		var n, g int
+		fmt.Sscan(p[3], &n)
+		fmt.Sscan(p[4], &g)
+		m[[3]string{p[0], p[1], p[2]}] = expectation{Class: p[5], Count: n, Guards: g, Reason: p[6]}
 	}
 	return m
 }
